@@ -159,7 +159,7 @@ def settle (w : WSt) : WSt :=
   let (x, exited) := (List.range n).foldl (fun (acc : X × List Bool) j =>
       if !(w.busy.getD j false) && w.pending.getD j false && !(acc.2.getD j false) then
         (runExit acc.1 j, acc.2.set j true) else acc) (w.x, w.exited)
-  let polls := (List.range x.callers.length).flatMap (fun i => [XTid.call i, .call i, .call i])
+  let polls := (List.range x.callers.length).flatMap (fun i => [XTid.call i, .call i, .call i, .call i])
   let x := xsteps x (polls ++ (if w.wrapped then [.wrap 0] else []))
   { w with x := x, exited := exited }
 
